@@ -278,3 +278,23 @@ def register(claim):
         'slide dofs (per-axis values on a free joint are not a frame-independent model).',
         'relational (two-run) algebraic value numbering of whole pipelines, decided by random interpretation',
         'DESIGN.md §3 C05')
+
+  claim('C12', 'other',
+        'Static consistency check of the generalized integrator by forward-mode differentiation in the '
+        'abstract domain: generalized.pipeline.init / step are abstractly interpreted from their AST on '
+        'symbolic conservative models (no damping / limits / actuators / contacts; joint springs, '
+        'armature, rotated bodies, offset anchors and centres of mass, joint stacks; world-attached and '
+        'free-floating) with the time step a dual number dt = 0 + eps over GF(2^61-1), so the returned '
+        'state carries its exact first-order coefficient in dt; the first-principles total mechanical '
+        'energy of the returned state (kinetic energy of all bodies + armature, gravitational and '
+        'spring potential, from braxlint/refkin.py -- not from brax\'s mass matrix) has a vanishing '
+        'first-order coefficient, and a free-floating model\'s total linear momentum has first-order '
+        'coefficient M_total g, as identities in all model parameters, q and qd.  A local error of '
+        'O(dt^2) per step is necessary and sufficient for the drift over a fixed horizon to vanish '
+        'with dt.',
+        'Trusted: python ast, AVN interpreter, dual-number arithmetic, reference energy / momentum, the '
+        'convergence theorem for one-step methods.  Not decided: the measured drift ratio over dt, dt/2, '
+        'dt/4 (a numeric consequence); <= 4 links instantiated.  The order of the velocity / position '
+        'update is not part of this property (explicit Euler also drifts O(dt)); it is decided by C02 R2.4.',
+        'abstract interpretation with dual numbers (forward-mode AD in GF(p)) + random interpretation',
+        'DESIGN.md §3 C12')
